@@ -60,7 +60,7 @@ def gen_case(rng):
 
 
 def generate(ctx):
-    return [gen_case(ctx.rng) for _ in range(ctx.n(180, 3000))]
+    return [gen_case(ctx.rng) for _ in range(ctx.n(200, 9000))]
 
 
 # ---------------------------------------------------------------------------------------
